@@ -1,38 +1,54 @@
-"""Which shadow variants and harness files decide which property."""
-from bcv.shadow import Sub
+"""Which shadow variants and harness files decide which property.
 
-CAPS = {"quick": 900, "thorough": 5400}      # wall-clock cap per harness (s) unless the harness says cap=
-MEM_GB = {"quick": 14, "thorough": 30}       # RLIMIT_AS per harness process tree member
+Fragments in lib/bcv/plans/*.py each define VARIANTS (name -> variant dict), PLAN (property -> list of
+(variant_name, [harness files relative to /verif/harness])) and optionally ASSUMPTIONS (property -> [str]).
+They are merged here; the same (variant, files) pair may serve several properties -- harness meta `prop=`
+selects which harnesses of a file belong to which property."""
+import glob, importlib.util, os
+from bcv.shadow import Sub  # noqa: F401
 
-VARIANTS = {
-    "des": dict(crate="des"),
-    "des+zeroize": dict(crate="des", features=["zeroize"]),
-}
+CAPS = {"quick": 900, "thorough": 7200}      # wall-clock cap per harness (s) unless the harness says cap=
+MEM_GB = {"quick": 14, "thorough": 30}       # RLIMIT_AS per process of a harness
 
-# property -> list of (variant, [harness files relative to /verif/harness])
-PLAN = {
-    "C13": [("des", ["des/c13.rs"])],
-}
-
+VARIANTS, PLAN = {}, {}
 ASSUMPTIONS = {
     "*": [
         "Kani 0.68 MIR->GOTO translation, CBMC 6.11 symbolic execution and bit-blasting, CaDiCaL (trusted base 1)",
         "shadow copies of /repo's working tree: counted textual substitutions outside function bodies + one injected harness module (listed under coverage.shadow_transformations)",
         "oracles in /verif/refmodels, validated natively against the repository's known-answer vectors by setup_cmd",
         "sequential execution (Kani does not model threads); MIR-level semantics (not the optimiser / code generation)",
+        "W-queries: leaves named in the harness' stubs are uninterpreted functions shared by implementation and oracle (Ackermann encoding); the matching leaf lemma (L harness) ties the real leaf to the oracle leaf",
     ],
 }
+MANIFEST_TEXT, NOT_APPLICABLE = {}, {}
+FIX_COMMITS = []
+
+for _f in sorted(glob.glob(os.path.join(os.path.dirname(os.path.abspath(__file__)), "plans", "*.py"))):
+    _spec = importlib.util.spec_from_file_location("bcv_plan_" + os.path.basename(_f)[:-3], _f)
+    _m = importlib.util.module_from_spec(_spec)
+    _spec.loader.exec_module(_m)
+    for k, v in getattr(_m, "VARIANTS", {}).items():
+        if k in VARIANTS and VARIANTS[k] != v:
+            raise RuntimeError(f"variant {k} defined twice differently ({_f})")
+        VARIANTS[k] = v
+    for p, lst in getattr(_m, "PLAN", {}).items():
+        for ent in lst:
+            cur = PLAN.setdefault(p, [])
+            # merge harness files of the same variant into one shadow group
+            for c in cur:
+                if c[0] == ent[0]:
+                    for f in ent[1]:
+                        if f not in c[1]:
+                            c[1].append(f)
+                    break
+            else:
+                cur.append((ent[0], list(ent[1])))
+    for p, lst in getattr(_m, "ASSUMPTIONS", {}).items():
+        ASSUMPTIONS.setdefault(p, []).extend(lst)
+    MANIFEST_TEXT.update(getattr(_m, "MANIFEST_TEXT", {}))
+    NOT_APPLICABLE.update(getattr(_m, "NOT_APPLICABLE", {}))
+    FIX_COMMITS.extend(getattr(_m, "FIX_COMMITS", []))
 
 
 def groups_for(prop, tier, seed):
     return PLAN[prop]
-
-FIX_COMMITS = ["a3e134a"]
-NOT_APPLICABLE = {}
-TECH = "bounded symbolic execution of the real Rust code with Kani/CBMC (SAT, CaDiCaL); solver verdict over all symbolic inputs within stated bounds; counterexamples replayed natively"
-MANIFEST_TEXT = {
-    "C13": dict(
-        level="Each clause is a solver verdict over the full key width (all 2^64 DES keys, all 2^128/2^192 TDES keys, all AES keys): weak_key_test/new_checked of the real crate vs. the statement's predicate (NIST list modulo parity; upper half zero). Bounded only by fixed key widths, so the verdict covers every key.",
-        note="NIST weak-key list carried by the oracle (validated structurally: odd parity, 4/12/48 keys with 1/2/4 distinct subkeys under the FIPS 46-3 key schedule); Kani/CBMC/CaDiCaL; MIR-level semantics.",
-        technique=TECH),
-}
